@@ -43,7 +43,7 @@ func (c plantedCase) build() (*oracle.G, []int) {
 
 func genPlantedCase(t *rapid.T) plantedCase {
 	k := rapid.IntRange(1, 6).Draw(t, "k")
-	n := rapid.IntRange(max(k, 9), sz(26, 34)).Draw(t, "n")
+	n := rapid.IntRange(max(k, 9), sz(40, 48)).Draw(t, "n")
 	return plantedCase{N: n, K: k, Dens: rapid.IntRange(1, 7).Draw(t, "dens"), Seed: rapid.Uint64().Draw(t, "seed"), Perm: genPerm(t, n, "pi")}
 }
 
@@ -54,7 +54,7 @@ func checkPlantedCase(c plantedCase, rec *Rec) error {
 	rec.Labelf("k=%d", c.K)
 	rec.Labelf("n-%d", bucket(c.N))
 	for _, rep := range []string{"dense", "sparse", "cocomp"} {
-		gr := reps(g)[rep]
+		gr := repOf(g, rep)
 		what := fmt.Sprintf("[%s; %d-partite graph with a planted K%d on %d vertices, edges %v]", rep, c.K, c.K, c.N, clipEdges(g))
 		var chi, omega int
 		var col []int
@@ -72,6 +72,19 @@ func checkPlantedCase(c plantedCase, rec *Rec) error {
 		}
 		if omega != c.K {
 			return fmt.Errorf("%s CliqueNumber = %d want %d", what, omega, c.K)
+		}
+		// all maximal cliques, beyond the subset-enumeration sizes: against the oracle's own recursion, each exactly once
+		if wantCl, ok := oracle.MaximalCliquesLarge(g, 60000); ok {
+			gotCl, err := drainCliques(gr)
+			if err != nil {
+				return fmt.Errorf("%s %v", what, err)
+			}
+			if gs, ws := fmt.Sprint(sortedSets(gotCl)), fmt.Sprint(sortedSets(wantCl)); gs != ws {
+				return fmt.Errorf("%s AllMaximalCliques sent %d cliques, there are %d maximal cliques: %s want %s", what, len(gotCl), len(wantCl), clip(gs, 300), clip(ws, 300))
+			}
+			rec.Labelf("maximal-cliques-%d", bucket(len(wantCl)))
+		} else {
+			rec.Label("maximal-cliques-skipped")
 		}
 		for _, k := range []int{c.K - 1, c.K, c.K + 1} {
 			if k < 0 {
@@ -115,6 +128,6 @@ func checkPlantedCase(c plantedCase, rec *Rec) error {
 
 func init() {
 	RegisterRapid("C09_planted_chi_omega",
-		"rapid: random K-partite graphs (K in 1..6, density 1/8..7/8 between classes) with a planted K-clique on 9..26 (thorough 34) vertices, relabelled by a uniform permutation, so chi = omega = K by construction: ChromaticNumber (value and witness), CliqueNumber, IsKColorable(K-1) = false, IsKColorable(K) and (K+1) = true with valid witnesses, GreedyColor proper; dense, sparse and view inputs. Covers sizes beyond the O(3^n) oracle. Non-trivial: n >= 12 and K >= 3.",
+		"rapid: random K-partite graphs (K in 1..6, density 1/8..7/8 between classes) with a planted K-clique on 9..40 (thorough 48) vertices, relabelled by a uniform permutation, so chi = omega = K by construction: ChromaticNumber (value and witness), CliqueNumber, IsKColorable(K-1) = false, IsKColorable(K) and (K+1) = true with valid witnesses, GreedyColor proper, AllMaximalCliques against an independent recursion (each clique once, delivered cliques never change afterwards); dense, sparse and view inputs. Covers sizes beyond the O(3^n) oracle. Non-trivial: n >= 12 and K >= 3.",
 		Budget{Checks: 1500, Shards: 2}, Budget{Checks: 4000, Shards: 16}, genPlantedCase, checkPlantedCase)
 }
